@@ -190,7 +190,7 @@ def explore(ctx):
     for i in range(ctx.budget(96, 480)):
         lib = ["ufoLib2", "defcon"][i % 2]
         n = rng.choice([2, 2, 3, 4])
-        variant = ["plain", "diff2x2", "plain", "mirror-one", "sparse", "plain", "closing-point", "plain"][i % 8]
+        variant = ["plain", "diff2x2", "plain", "mirror-one", "sparse", "edge-point", "closing-point", "plain"][i % 8]
         if variant == "sparse":
             n = max(n, 3)
         base = dsgen.base_master(rng)
@@ -228,6 +228,13 @@ def explore(ctx):
             g["components"][0] = (b, (-t[0], t[1], -t[2], t[3], t[4], t[5]))
             sig = F7_SIG
             sig_glyphs = users_of(base, gname)
+        elif variant == "edge-point":
+            # a point lying exactly on a straight horizontal edge in the default master, off the edge in the others: same
+            # point structure; a charstring specialiser would fold the run in the default master only
+            for k, m in enumerate(masters):
+                m["glyphs"][0]["contours"].append([(Fr(10), Fr(10), "line"), (Fr(100 + 3 * k), Fr(10 - 8 * k), "line"),
+                                                   (Fr(200 + 5 * k), Fr(10), "line"), (Fr(200 + 5 * k), Fr(300), "line"),
+                                                   (Fr(10), Fr(300 + k), "line")])
         elif variant == "closing-point":
             # in the last master the last point of an all-line contour coincides with its first point: still the same
             # number and types of points (known finding F15 on the OTF path)
@@ -251,6 +258,11 @@ def explore(ctx):
         fn = ["compileInterpolatableTTFs", "compileInterpolatableTTFsFromDS", "compileInterpolatableOTFsFromDS"][(i % 8 + i // 8) % 3]
         if variant == "closing-point" and "OTF" in fn:
             sig = F15_SIG
+        if "OTF" in fn and (variant == "edge-point" or rng.random() < 0.3):
+            # the specialiser level must not reach the masters (they are merged point by point).  Level 2 (subroutinise) is
+            # not passed: it contradicts "interpolatable" and makes the post-processor run cffsubr on sparse masters, which
+            # have no cmap (observation O10)
+            opts["optimizeCFF"] = 1
         if rng.random() < (0.6 if variant == "sparse" else 0.3) and "TTF" in fn:
             opts["flattenComponents"] = True
         if rng.random() < 0.25:
